@@ -36,6 +36,8 @@ def plan(tier, seed):
     scs = [dict(kind='pairs', i=i) for i in range(N)] + [dict(kind='triples', j=j) for j in range(N)]
     sub = list(range(0, N, 5))
     scs += [dict(kind='triples-bo', j=j) for j in sub]
+    scs += [dict(kind='triples-rules', j=j) for j in sub]
+    scs += [dict(kind='quads-bo', j=j) for j in range(N)]
     scs.append(dict(kind='paircoeffs'))
     if tier == 'quick':
         scs += [dict(kind='quads', j=j, k=None) for j in range(N)]
@@ -140,6 +142,48 @@ def run(sc, ctx):
             out['nontrivial'] += len(res) if style != 'fourier' else 0
         if j == 12 and kind == 'triples':
             out['samples'] = [dict(kind='triple', types=[K[1], b, K[7]], angle_params=list(ru.angle_params(K[1], b, K[7])))]
+        return out
+    if kind == 'triples-rules':
+        # a user rule that matches exactly one of the two bonds (or both when the outer types coincide)
+        j = sc['j']; b = K[j]; idx = list(range(0, N, 5))
+        r2 = REF.bonds(2.0)[1]
+        for which in (0, 1):
+            for i in idx:
+                for k in idx:
+                    a, c = K[i], K[k]
+                    rule_pair = {a, b} if which == 0 else {b, c}
+                    rij = r2[i, j] if {a, b} == rule_pair else REF.rb[i, j]
+                    rjk = r2[j, k] if {b, c} == rule_pair else REF.rb[j, k]
+                    style, kijk, tail = REF.angle_slab(j, np.full((N, 1), rij), np.full((1, N), rjk))
+                    try:
+                        p = ru.angle_params(a, b, c, bond_order_rules=[(rule_pair, 2)])
+                    except Exception as e:
+                        V(out, sc, 'angle', 'exc', 'angle_params(%s,%s,%s, rules) raised %r' % (a, b, c, e)); continue
+                    out['evals'] += 1; out['compared'] += 1; out['states'] += 1
+                    if p[0] != style or not close(p[1], kijk[i, k]):
+                        V(out, sc, 'angle', 'rules', 'angle_params(%s, %s, %s, bond_order_rules=[(%r, 2)]) = %r, UFF with that rule gives (%s, %r)' % (a, b, c, sorted(rule_pair), p, style, kijk[i, k]))
+        oc['angle with rule'] = oc.get('angle with rule', 0) + 2 * len(idx) ** 2; out['nontrivial'] += 2 * len(idx) ** 2
+        return out
+    if kind == 'quads-bo':
+        j = sc['j']; reps = outer_reps()[::4]
+        for k in range(j, N):
+            b, c = K[j], K[k]
+            for bo, rules, eff in ((1, None, 1.0), (1.5, None, 1.5), (2, None, 2.0), (None, [({b, c}, 2)], 2.0), (None, [({'Zz_1', 'Qq'}, 3)], None)):
+                for i in reps:
+                    for l in reps:
+                        kw = {}
+                        if bo is not None:
+                            kw['bond_order'] = bo
+                        if rules is not None:
+                            kw['bond_order_rules'] = rules
+                        p = tor(K[i], b, c, K[l], **kw); q = tor(K[l], c, b, K[i], **kw)
+                        exp = REF.torsion(i, j, k, l, bo=eff)
+                        out['evals'] += 2; out['compared'] += 1; out['states'] += 1
+                        if not same_params(p, exp):
+                            V(out, sc, 'torsion', 'bond-order', 'dihedral_params(%s, %s, %s, %s, bond_order=%r, rules=%r) = %r, UFF gives %r' % (K[i], b, c, K[l], bo, rules and 'rule', p, exp))
+                        if not same_params(p, q):
+                            V(out, sc, 'torsion', 'reversal', 'dihedral_params(%s,%s,%s,%s, bond_order=%r) = %r but reversed gives %r' % (K[i], b, c, K[l], bo, p, q))
+        oc['torsion with bond order'] = oc.get('torsion with bond order', 0) + 1; out['nontrivial'] += (N - j) * 5 * len(reps) ** 2
         return out
     if kind == 'paircoeffs':
         for i, a in enumerate(K):
